@@ -8,7 +8,9 @@
          A statement may be conditional on ambient state (SCond): the draw under a logging-level test,
          the per-thread spawn.  Such a statement is never closed.
    (ii)  Rankers with user-derived seeds versus rankers with one fixed generator.
-   (iii) Row-parallel computations: fixed-size consecutive chunks, joined in chunk order. *)
+   (iii) Row-parallel computations: fixed-size consecutive chunks, joined in chunk order.
+   (v)   ONE training-options object serving a sequence of trainings: random_generator() either builds a
+         generator from the seed on every call, or memoises it on the object (train_all). *)
 From Coq Require Import ZArith List Bool String.
 Import ListNotations.
 Local Open Scope string_scope.
@@ -203,6 +205,35 @@ Section Fill.
     | n :: t => (fst (fill n (child g i)) ++ fill_children (S i) t g)%list
     end.
 End Fill.
+
+(* ---- (v) one options object, several trainings ------------------------------------------------ *)
+(* what TrainingOptions.random_generator() does (generated: training_options_plan) *)
+Inductive opt_plan := FreshPerCall | Memoised.
+Definition plan_fresh (p : opt_plan) : bool := match p with FreshPerCall => true | Memoised => false end.
+
+Section Options.
+  Context {S G M : Type}.
+  Variable mk : S -> G.                             (* random_generator(seed) *)
+
+  (* the options object: its seed and the slot in which a memoising random_generator() keeps its generator;
+     a training is any function of the generator it is given, returning the model and the advanced generator
+     (Python generators are mutable objects: what the training draws is gone from the memoised one too) *)
+  Definition train_one (plan : opt_plan) (seed : S) (slot : option G) (t : G -> M * G) : M * option G :=
+    match plan with
+    | FreshPerCall => (fst (t (mk seed)), slot)
+    | Memoised => let g := match slot with Some g => g | None => mk seed end in
+                  let (m, g') := t g in (m, Some g')
+    end.
+
+  Fixpoint train_all (plan : opt_plan) (seed : S) (slot : option G) (ts : list (G -> M * G)) : list M :=
+    match ts with
+    | [] => []
+    | t :: rest => let (m, slot') := train_one plan seed slot t in m :: train_all plan seed slot' rest
+    end.
+
+  (* every training done with its own fresh, equal options object *)
+  Definition train_fresh (seed : S) (ts : list (G -> M * G)) : list M := map (fun t => fst (t (mk seed))) ts.
+End Options.
 
 (* ---- correspondence helpers -------------------------------------------------------------- *)
 Definition all_equal (l : list Z) : bool :=
